@@ -4,7 +4,8 @@ MCKeys == {<<97>>, <<98>>}
 MCScalars == {Null, Uint(1), Real(3)}
 MCStr == {<<>>, <<120>>}
 SimKeys == {<<97>>, <<98>>, <<>>, <<107, 49, 50>>}
-SimScalars == {Bool(TRUE), Uint(7), Sint(-1), Real(3)}
+\* Real(-1000001) stands for the double -0.0 (n / 2 cannot express it)
+SimScalars == {Bool(TRUE), Uint(7), Uint(0), Sint(-1), Real(3), Real(0), Real(-1000001)}
 SimStr == {<<>>, <<120, 34, 92, 10>>}
 \* hide the ledger and label from the fingerprint? no: they are functions of the I-state except
 \* 'last', which would multiply states without adding behaviour
